@@ -25,7 +25,10 @@ def one(sid):
         if r.returncode != 0:
             return sid, None, "patch does not apply: " + r.stdout[-200:]
         env = dict(os.environ, VERIF_REPO=dst, VERIF_EVIDENCE_DIR=os.path.join(t, "ev"), CARGO_NET_OFFLINE="true")
-        out = subprocess.run([os.path.join(VERIF, "vf"), "all", "--tier", "quick"], cwd=VERIF, env=env, stdout=subprocess.PIPE, stderr=subprocess.STDOUT, text=True).stdout
+        pr = subprocess.run([os.path.join(VERIF, "vf"), "all", "--tier", "quick"], cwd=VERIF, env=env, stdout=subprocess.PIPE, stderr=subprocess.STDOUT, text=True)
+        out = pr.stdout
+        if pr.returncode not in (0, 1) or out.count("[quick]:") < 20:
+            return sid, None, "vf all did not complete (exit %d):\n%s" % (pr.returncode, "\n".join(out.splitlines()[-15:]))
     finally:
         shutil.rmtree(t, ignore_errors=True)
     fired, cur = [], None
